@@ -1,5 +1,6 @@
 import PGA.Model.YamlTables
 import PGA.Spec.SI
+import PGA.Proofs.UnitsExt
 import Mathlib.Tactic.Linarith
 import Mathlib.Algebra.Order.Field.Rat
 /-!
@@ -115,6 +116,16 @@ theorem C12_tab_units_from_si_reference :
   have h : (unitTable.all fun p => agreesB refCfg p.1 p.2 (1 / 10 ^ 6)) = true := by decide +kernel
   intro p hp
   exact agreesB_sound (List.all_eq_true.mp h p hp)
+
+/-- **Table obligation (C12 ← extended reference)**: the same holds over the reference *extended by the units of the
+working tree that the reference does not know* (`PGA/Spec/SIExt.lean`: each new unit means what its definition means,
+and none of its spellings had a meaning before): a grown unit table changes what no row of the loader's table denotes
+— a consequence of the conservativity theorem, not a second table evaluation. -/
+theorem C12_tab_units_from_ext_reference :
+    ∀ p ∈ unitTable, AgreesWith PGA.SI.extCfg p.1 p.2 (1 / 10 ^ 6) := by
+  intro p hp
+  obtain ⟨v, hv, hd⟩ := C12_tab_units_from_si_reference p hp
+  exact ⟨v, PGA.Units.evalStr_extend PGA.SI.ext_conservative _ _ hv, hd⟩
 
 /-- … and units defined by exact factors (no measured constant: everything but `molecule`, `eV`, `BTU`) agree with the
 reference exactly -/
